@@ -15,10 +15,18 @@ list (= every directory tree with every placement of walk/open/load faults) and 
 
 Vocabulary (defined in the model file, input-only):
 `acceptedPaths m es` = paths of the non-directory entries accepted by `m`, walk order;
-`allNames m es` = for each such entry its path followed by its `:define` names, concatenated;
-`NoFsFault m es` = no walk error, and no open/load error at an accepted file;
+`definedNames ds` = the names of the `define`s `ds` in front of the first one whose name fails to evaluate
+(`none`); `e.names` = the path of `e` followed by `definedNames e.content.defines`;
+`allNames m es` = `e.names` for each such entry, concatenated;
+`NoFsFault m es` = no walk error, and no open/load error and no failing `define` name (`Content.nameErr`)
+at an accepted file;
 `Clean m es` = `NoFsFault m es ∧ (allNames m es).Nodup`;
-`faultOf m seen e` = the error entry `e` must yield when `seen` are the names registered before it. -/
+`faultOf m seen e` = the error entry `e` must yield when `seen` are the names registered before it.
+
+A `define` whose NAME fails to evaluate (valueless `:define`, `:define="${1/0}"`, …) is a fault of its own:
+`addDefinedTpl` returns the evaluation error (kind `load`: neither a file-system nor the duplicate-name
+error) when it reaches that `define`, i.e. after the file and the fragments in front of it were registered
+and unless one of those clashes first (`define_name_error`; the clash first: `duplicate_is_error`). -/
 namespace C19
 open FP
 
@@ -27,18 +35,18 @@ open FP
 /-- a tree with a sub-directory, a non-matching file that could neither be opened nor loaded, fragments -/
 def tree : List Entry :=
   [ { path := ".", isDir := true },
-    { path := "a.html", content := { defines := ["hdr", "ftr"] } },
+    { path := "a.html", content := { defines := [some "hdr", some "ftr"] } },
     { path := "notes.txt", openErr := true, content := { loadErr := true } },
     { path := "sub", isDir := true },
-    { path := "sub/b.html", content := { defines := ["card"] } },
-    { path := "sub/c.html.bak", content := { defines := ["hdr"] } } ]
+    { path := "sub/b.html", content := { defines := [some "card"] } },
+    { path := "sub/c.html.bak", content := { defines := [some "hdr"] } } ]
 
 /-- `sub/b.html` re-defines fragment `hdr` after defining `card`; a later file would fail to open -/
 def dupTree : List Entry :=
   [ { path := ".", isDir := true },
-    { path := "a.html", content := { defines := ["hdr", "ftr"] } },
+    { path := "a.html", content := { defines := [some "hdr", some "ftr"] } },
     { path := "sub", isDir := true },
-    { path := "sub/b.html", content := { defines := ["card", "hdr", "late"] } },
+    { path := "sub/b.html", content := { defines := [some "card", some "hdr", some "late"] } },
     { path := "z.html", openErr := true } ]
 
 /-- the same tree with a fault injected at entry number `i` -/
@@ -59,7 +67,7 @@ example : run html dupTree =
                         opens := ["a.html", "sub/b.html"], closes := ["a.html", "sub/b.html"] }) := by decide
 
 /-- a file whose own name is taken (here by a fragment) fails BEFORE it is scanned: load error not seen -/
-example : (run html [ { path := "a.html", content := { defines := ["b.html"] } },
+example : (run html [ { path := "a.html", content := { defines := [some "b.html"] } },
                       { path := "b.html", content := { loadErr := true } } ]).1 = .err .duplicate := by decide
 
 example : (run html (inject (fun e => { e with walkErr := true }) 3 tree)) =
@@ -103,15 +111,38 @@ example : (run html tree).1 = .ok ∧ (run html tree).2.files = ["a.html", "sub/
 /-! ## templates_are_files_plus_defines -/
 
 /-- If the parse succeeds, `Templates()` is, for each registered file in order, its path followed by the
-    fragments it defines — one namespace — and no name occurs twice. -/
+    fragments it defines — one namespace — and no name occurs twice.  "The fragments it defines" are ALL its
+    `define`s: on success no `define` name failed to evaluate, so `definedNames` cuts nothing off (second
+    conjunct).  What is registered when the parse FAILS is `registered_prefix_always` (a prefix of
+    `allNames`: the names in front of the first fault), `fs_error_returned` and `define_name_error`. -/
 theorem templates_are_files_plus_defines (m : String → Bool) (es : List Entry) (h : (run m es).1 = .ok) :
     (run m es).2.templates =
-      (es.filter (fun e => !e.isDir && m e.path)).flatMap (fun e => e.path :: e.content.defines) ∧
+      (es.filter (fun e => !e.isDir && m e.path)).flatMap
+        (fun e => e.path :: definedNames e.content.defines) ∧
+    (∀ e ∈ es.filter (fun e => !e.isDir && m e.path),
+      (definedNames e.content.defines).map some = e.content.defines) ∧
     (run m es).2.templates.Nodup := by
-  refine ⟨?_, walk_nodup m {} es (by simp)⟩
-  have := (walk_ok m {} es h).2.1
-  simp only [List.nil_append] at this
-  exact this
+  refine ⟨?_, ?_, walk_nodup m {} es (by simp)⟩
+  · have := (walk_ok m {} es h).2.1
+    simp only [List.nil_append] at this
+    exact this
+  · intro e he
+    obtain ⟨he1, he2⟩ := List.mem_filter.mp he
+    have hc := ((walk_ok_iff m {} es (by simp)).mp h).1 e he1
+    exact map_some_definedNames (hc.2 he2).2.2
+
+/-- the same with the names wrapped: the registry IS the paths and the `define` lists of the matching files -/
+theorem templates_are_files_plus_defines' (m : String → Bool) (es : List Entry) (h : (run m es).1 = .ok) :
+    (run m es).2.templates.map some =
+      (es.filter (fun e => !e.isDir && m e.path)).flatMap (fun e => some e.path :: e.content.defines) := by
+  obtain ⟨h1, h2, _⟩ := templates_are_files_plus_defines m es h
+  rw [h1]
+  generalize es.filter (fun e => !e.isDir && m e.path) = l at h2
+  induction l with
+  | nil => rfl
+  | cons e l ih =>
+    simp only [List.flatMap_cons, List.map_append, List.map_cons]
+    rw [h2 e (by simp), ih (fun x hx => h2 x (List.mem_cons_of_mem _ hx))]
 
 /-- every registered file is also a registered template (the file itself is a template) -/
 theorem files_subset_templates (m : String → Bool) (es : List Entry) (h : (run m es).1 = .ok) :
@@ -175,7 +206,8 @@ theorem error_has_first_fault (m : String → Bool) (es : List Entry) (k : ErrKi
 theorem error_cause (m : String → Bool) (es : List Entry) :
     ((run m es).1 = .err .walk → ∃ e ∈ es, e.walkErr = true) ∧
     ((run m es).1 = .err .open → ∃ e ∈ es, e.isDir = false ∧ m e.path = true ∧ e.openErr = true) ∧
-    ((run m es).1 = .err .load → ∃ e ∈ es, e.isDir = false ∧ m e.path = true ∧ e.content.loadErr = true) := by
+    ((run m es).1 = .err .load → ∃ e ∈ es, e.isDir = false ∧ m e.path = true ∧
+      (e.content.loadErr = true ∨ e.content.nameErr = true)) := by
   refine ⟨fun h => walk_err_cause m {} es .walk h, fun h => ?_, fun h => ?_⟩
   · obtain ⟨e, he, ha, ho⟩ := walk_err_cause m {} es .open h
     simp [Entry.accepted] at ha
@@ -193,7 +225,7 @@ example : faultOf html (allNames html (tree.take 4)) { path := "sub", walkErr :=
     = some .walk := by decide
 example : faultOf html (allNames html (tree.take 4)) { path := "sub/b.html", openErr := true }
     = some .open := by decide
-example : faultOf html (allNames html (tree.take 4)) { path := "hdr" ++ ".html", content := {defines := ["ftr"]} }
+example : faultOf html (allNames html (tree.take 4)) { path := "hdr" ++ ".html", content := {defines := [some "ftr"]} }
     = some .duplicate := by decide
 
 /-! ## duplicate_is_error -/
@@ -240,7 +272,9 @@ theorem duplicate_is_error_global (m : String → Bool) (es : List Entry)
       rw [((hfs e he).2 (by simp [Entry.accepted, hd, hm])).1] at ho; cases ho
     | load =>
       obtain ⟨e, he, hd, hm, hl⟩ := hc.2.2 hr
-      rw [((hfs e he).2 (by simp [Entry.accepted, hd, hm])).2] at hl; cases hl
+      have hh := (hfs e he).2 (by simp [Entry.accepted, hd, hm])
+      rw [hh.2.1, hh.2.2] at hl
+      rcases hl with hl | hl <;> cases hl
 
 /-- Conversely a successful parse means no name was requested twice. -/
 theorem ok_implies_nodup (m : String → Bool) (es : List Entry) (h : (run m es).1 = .ok) :
@@ -310,6 +344,80 @@ theorem opened_eq_closed (m : String → Bool) (es : List Entry) :
 /-- non-vacuity: an error AFTER a successful open (load error, duplicate) still closes the file -/
 example : (run html dupTree).1 = .err .duplicate ∧ (run html dupTree).2.closes = ["a.html", "sub/b.html"] := by
   decide
+
+/-! ## define_name_error -/
+
+/-- `sub/b.html` has a `define` whose name fails to evaluate, after `card`; behind it a clash (`hdr`) and
+    `late`; a later file would fail to open -/
+def nameErrTree : List Entry :=
+  [ { path := ".", isDir := true },
+    { path := "a.html", content := { defines := [some "hdr", some "ftr"] } },
+    { path := "sub", isDir := true },
+    { path := "sub/b.html", content := { defines := [some "card", none, some "hdr", some "late"] } },
+    { path := "z.html", openErr := true } ]
+
+/-- the evaluation error is returned; the file and `card` REMAIN registered; the clash behind the failing name
+    is never seen; the file is closed; `z.html` is never reached -/
+example : run html nameErrTree =
+    (.err .load, { files := ["a.html", "sub/b.html"],
+                   templates := ["a.html", "hdr", "ftr", "sub/b.html", "card"],
+                   opens := ["a.html", "sub/b.html"], closes := ["a.html", "sub/b.html"] }) := by decide
+
+/-- a clash IN FRONT of the failing name wins: the duplicate-name error -/
+example : (run html [ { path := "a.html", content := { defines := [some "x"] } },
+                      { path := "b.html", content := { defines := [some "x", none] } } ]) =
+    (.err .duplicate, { files := ["a.html", "b.html"], templates := ["a.html", "x", "b.html"],
+                        opens := ["a.html", "b.html"], closes := ["a.html", "b.html"] }) := by decide
+
+/-- **A `define` whose name fails to evaluate.**  Everything before `e` is fault-free; `e` is an accepted file
+    reached without walk/open error that loads; the names requested up to `e`, those of `e` only as far as
+    its first failing `define` name, contain no duplicate; and some `define` name of `e` fails.  Then the
+    result is the evaluation error (kind `load`) and NOTHING is rolled back: the registered files are the
+    accepted files of `pre` and `e`, the registered templates are all names of `pre`, the path of `e` and its
+    fragments in front of the failing one; `e` was opened and closed; `post` is never looked at (the
+    `define`s of `e` behind the failing one are not even mentioned in the conclusion). -/
+theorem define_name_error (m : String → Bool) (pre : List Entry) (e : Entry) (post : List Entry)
+    (hpre : Clean m pre) (hw : e.walkErr = false) (ha : e.isDir = false ∧ m e.path = true)
+    (ho : e.openErr = false) (hl : e.content.loadErr = false)
+    (hnd : (allNames m (pre ++ [e])).Nodup) (hne : none ∈ e.content.defines) :
+    (run m (pre ++ e :: post)).1 = .err .load ∧
+    (run m (pre ++ e :: post)).2.files = acceptedPaths m pre ++ [e.path] ∧
+    (run m (pre ++ e :: post)).2.templates = allNames m pre ++ e.path :: definedNames e.content.defines ∧
+    (run m (pre ++ e :: post)).2.opens = acceptedPaths m pre ++ [e.path] ∧
+    (run m (pre ++ e :: post)).2.closes = acceptedPaths m pre ++ [e.path] := by
+  have hacc : e.accepted m = true := by simp [Entry.accepted, ha.1, ha.2]
+  have hn : allNames m (pre ++ [e]) = allNames m pre ++ e.names := by
+    rw [allNames_append, allNames_cons, allNames_nil]; simp [hacc]
+  rw [hn] at hnd
+  have hfresh : e.path ∉ allNames m pre := fun hmem =>
+    (List.nodup_append.mp hnd).2.2 _ hmem _ (by simp [Entry.names]) rfl
+  have hf : faultOf m (allNames m pre) e = some .load := by
+    unfold faultOf
+    simp [hw, hacc, ho, hfresh, hl, hnd, (nameErr_iff _).mpr hne]
+  have hok := (ok_iff_clean m pre).mpr hpre
+  obtain ⟨r1, _, r3⟩ := fs_error_returned m pre e post .load hpre hf
+  have hst := walk_first_fault m {} pre e post .load (by simp) hok (by simpa using hf)
+  obtain ⟨w1, w2, _, _⟩ := walk_ok m {} pre hok
+  simp only [List.nil_append] at w1 w2
+  have hv : (visit m (walk m {} pre).2 e).1 = .err .load := by
+    have := visit_result m (walk m {} pre).2 e (walk_nodup m {} pre (by simp))
+    rw [w2, hf] at this
+    exact this
+  obtain ⟨v1, v2⟩ := visit_registered m (walk m {} pre).2 e hw hacc ho (by rw [w2]; exact hfresh) hl
+    (by rw [hv]; simp)
+  have hopen : e.opened m = true := by simp [Entry.opened, hw, hacc, ho]
+  have hoc := opened_eq_closed m (pre ++ e :: post)
+  rw [hopen, if_pos rfl] at r3
+  refine ⟨r1, ?_, ?_, r3, by rw [← hoc]; exact r3⟩
+  · simp only [run]; rw [hst]; simp only; rw [v1, w1]
+  · simp only [run]; rw [hst]; simp only; rw [v2, w2]; rfl
+
+/-- non-vacuity: `nameErrTree = take 3 ++ sub/b.html :: [z.html]` -/
+example : Clean html (nameErrTree.take 3) ∧ (allNames html (nameErrTree.take 3 ++ [nameErrTree[3]])).Nodup ∧
+    none ∈ nameErrTree[3].content.defines ∧ nameErrTree[3].content.loadErr = false ∧
+    nameErrTree = nameErrTree.take 3 ++ nameErrTree[3] :: nameErrTree.drop 4 :=
+  ⟨(ok_iff_clean html _).mp (by decide), by decide, by decide, by decide, by decide⟩
+example : faultOf html (allNames html (nameErrTree.take 3)) nameErrTree[3] = some .load := by decide
 
 /-! ## a fault at every entry (the quantifier of the S3 search, here as a theorem) -/
 
